@@ -331,6 +331,14 @@ func (r *Run) Violation(sig, desc string, c any) {
 	}
 	_ = os.WriteFile(path, b, 0o644)
 	r.viol = append(r.viol, Violation{Sig: sig, Desc: desc, Replay: path})
+	// crash-surviving copy for the driver, in case the process dies before Finish
+	if dir := os.Getenv("VERIF_RUNDIR"); dir != "" {
+		if f, err := os.OpenFile(filepath.Join(dir, r.Stage+".viol.jsonl"), os.O_APPEND|os.O_CREATE|os.O_WRONLY, 0o644); err == nil {
+			lb, _ := json.Marshal(Violation{Sig: sig, Desc: desc, Replay: path})
+			_, _ = f.Write(append(lb, '\n'))
+			_ = f.Close()
+		}
+	}
 	fmt.Printf("VIOLATION-DETAIL property=%s stage=%s sig=%q %s\n", r.ID, r.Stage, sig, desc)
 }
 
